@@ -237,7 +237,8 @@ class C03(core.Check):
         "branch decisions on TOL are reproduced exactly (TOL is the exact rational image of the float, |c-1| is exact in floats for c in [0.5,2])",
         "negative expansion ratios are outside the property's quantifier and outside the model (complex / nan arithmetic); not generated",
         "inputs within 2% of the TOL switch or in the cancellation zone TOL <= |T-1| < 1e-4 of the root-finding count are "
-        "exercised, but there a rejection or a count off by one at a tie is accepted (documented numerical fragility, no wrong grading)",
+        "exercised, but there a rejection or a count off by one at a tie is accepted (documented numerical fragility, no wrong grading); "
+        "likewise a rejection where first and last cell of a (size, total expansion) pair fill the edge exactly (two-cell tie)",
     ]
     partial_note = (
         "Theorems: closure order on the generated relation table, geometric-sum law, end/first ratio, count specification "
@@ -245,7 +246,12 @@ class C03(core.Check):
         "the cell count for fixed total expansion, inversion of the progression, of Chop and of Grading, guards, the known-finding "
         "counterexample, and end-to-end statements for the ten pairs on the model with exact solver answers. Validator-checked "
         "only: that log/brentq/pow of the implementation meet their specifications (float rounding, scipy); rejections raised "
-        "inside a solver are taken from the implementation. End-to-end reversal is proved for (start size, c2c) only."
+        "inside a solver are taken from the implementation. End-to-end reversal is proved for five of the ten pairs ((start, c2c), "
+        "(end, c2c), (count, c2c), (count, total), (total, c2c)); for the others validator identity + oracle. The bodies of the twelve "
+        "relations, of the simple validators and of Chop.invert are translated from the source text (ast) at every run and proved "
+        "equal to the model (T_C03_translated_*); in those theorems log/int, ceil, brentq and fractional powers are oracle slots "
+        "under the model's validators, and the brentq brackets / fcnt / fexp are pinned syntactically only. Chop.__post_init__ and "
+        "copy_preserving are not translated (model + correspondence)."
     )
 
     # ------------------------------------------------------------------ generators
@@ -1431,7 +1437,11 @@ class C03(core.Check):
         if "total_expansion" in g:
             T = g["total_expansion"]
             s = g["start_size"] if "start_size" in g else g["end_size"] / T
-            return s <= L * (1 - m) and s * T <= L * (1 - m) and s >= 1e-4 * L
+            # like the (start, end) pair below: first and last cell together must leave room on the edge.  At an exact
+            # two-cell fit (s + s*T == L to the ulp) with T near 1 the bracket [0, L/d_min] of brentq ends at the root and the
+            # search can run into the pole of fcnt at cnt == 1 (OverflowError, measured up to |T-1| ~ 5e-4): not "clearly
+            # realisable, well inside every limit"; a grading returned there is still judged like any other
+            return s <= L * (1 - m) and s * T <= L * (1 - m) and s >= 1e-4 * L and s + s * T <= L * (1 - m)
         s, e = g["start_size"], g["end_size"]
         return s + e <= L * (1 - m)
 
